@@ -122,8 +122,27 @@ func genHist(rt *rapid.T) histPlan {
 	if span > 600e9 {
 		span = 600e9
 	}
+	// Half of the resets are aimed into the middle of a backoff period with
+	// index >= 1 (timeline of a run in which every dial fails at once and the
+	// jitter is zero; later resets shift the real timeline, which is fine).
+	var mids []int64
+	tl := 0.0
+	for k := 0; k < p.NDials && tl < 600e9; k++ {
+		b := float64(p.BaseNs)
+		if k > 0 {
+			b = math.Min(float64(p.BaseNs)*math.Pow(p.Mult, float64(k)), float64(p.MaxNs))
+		}
+		if k >= 1 && b >= 4 {
+			mids = append(mids, int64(tl+b/2))
+		}
+		tl += b
+	}
 	for i := 0; i < nReset; i++ {
-		p.ResetAtNs = append(p.ResetAtNs, rapid.Int64Range(0, int64(span)).Draw(rt, "reset_at"))
+		if len(mids) > 0 && rapid.Bool().Draw(rt, "reset_aimed") {
+			p.ResetAtNs = append(p.ResetAtNs, mids[rapid.IntRange(0, len(mids)-1).Draw(rt, "reset_mid")])
+		} else {
+			p.ResetAtNs = append(p.ResetAtNs, rapid.Int64Range(0, int64(span)).Draw(rt, "reset_at"))
+		}
 	}
 	sort.Slice(p.ResetAtNs, func(i, j int) bool { return p.ResetAtNs[i] < p.ResetAtNs[j] })
 	return p
@@ -330,8 +349,17 @@ func runHist(t *testing.T, p histPlan) vk.Result {
 	// reset times relative to an interval; virtual time makes a reset coincide
 	// exactly with the dial it triggers, so boundary cases are classified
 	// separately and handled leniently.
+	// skipReset: one reset known to have happened before the dial under
+	// consideration started (it cut the previous backoff and thereby triggered
+	// this dial); excluded once from the searches below.
+	var skipReset *time.Time
 	resetWhere := func(pred func(r time.Time) bool) bool {
+		skipped := false
 		for _, r := range obs.resets {
+			if skipReset != nil && !skipped && r.Equal(*skipReset) {
+				skipped = true
+				continue
+			}
 			if pred(r) {
 				return true
 			}
@@ -358,6 +386,7 @@ func runHist(t *testing.T, p histPlan) vk.Result {
 	for _, addr := range order {
 		idxs := byAddr[addr]
 		cand := map[int]bool{0: true}
+		haveCut, cutBy := false, time.Time{}
 		for n, di := range idxs {
 			d := obs.dials[di]
 			if !d.ended {
@@ -383,6 +412,10 @@ func runHist(t *testing.T, p histPlan) vk.Result {
 			for k := range cand {
 				used[k] = true
 			}
+			skipReset = nil
+			if haveCut && cutBy.Equal(d.start) {
+				skipReset = &cutBy
+			}
 			resetDuring := resetWhere(func(r time.Time) bool { return !r.Before(d.start) && !r.After(d.end) })
 			if resetDuring {
 				used[0] = true
@@ -401,11 +434,19 @@ func runHist(t *testing.T, p histPlan) vk.Result {
 				lo = math.Min(lo, lower(k))
 				maxK = max(maxK, k)
 			}
+			// A reset inside (failure, next dial] either cut the backoff short
+			// (then the next dial starts at the very instant of the reset) or
+			// arrived just after the timer had expired on its own, i.e. during
+			// the next dial. It certainly was a cut when the wait is shorter
+			// than the backoff allows.
+			cut := resetAfter && !resetAmb && !recreated && gap < lo
 			switch {
 			case recreated:
 				res = res.With("subchannel_recreated_skip")
-			case resetAfter || resetAmb:
+			case cut:
 				res = res.With("reset_cut_backoff")
+			case resetAfter || resetAmb:
+				res = res.With("reset_near_backoff_end_unasserted")
 			default:
 				if gap < lo {
 					return vk.Bad("address %s: dial #%d failed at %d ns and the next dial #%d started %d ns later; the backoff index was in %v so the wait must be at least %.0f ns (no reset, no success in between): %s",
@@ -421,8 +462,9 @@ func runHist(t *testing.T, p histPlan) vk.Result {
 				// Index restart made observable: pick_first (single address)
 				// reconnects a subchannel the moment it leaves backoff, so
 				// after a success or an explicit reset the wait is exactly
-				// Backoff(0) = BaseDelay.
-				if p.NAddrs == 1 && len(used) == 1 && used[0] && !resetWhere(func(r time.Time) bool { return r.After(d.start) && !r.After(d.end) }) {
+				// Backoff(0) = BaseDelay. Not asserted when another reset
+				// fell into this dial (the one that triggered it excepted).
+				if p.NAddrs == 1 && len(used) == 1 && used[0] && !resetDuring {
 					if gap > float64(p.BaseNs) {
 						return vk.Bad("address %s: dial #%d failed with backoff index 0 (first attempt, or first after a success / explicit reset) but the next dial came %d ns later, want the base delay %d ns: %s", addr, di, int64(gap), p.BaseNs, dump())
 					}
@@ -437,9 +479,11 @@ func runHist(t *testing.T, p histPlan) vk.Result {
 				}
 			}
 			// successor index candidates
+			haveCut = false
 			switch {
-			case resetAfter && !resetAmb && !recreated:
+			case cut:
 				cand = map[int]bool{0: true}
+				haveCut, cutBy = true, next.start
 			default:
 				cand = map[int]bool{}
 				for k := range used {
